@@ -58,10 +58,11 @@ def message_types(prog):
 class Layout:
     """Symbolic run of parse_from_block4 + to_mt_string for one message type."""
 
-    def __init__(self, prog, ty, N, unroll=None, cap_scale=None):
+    def __init__(self, prog, ty, N, unroll=None, cap_scale=None, tags=None):
         self.prog, self.ty, self.N = prog, ty, N
         self.m = Machine(prog, N, unroll=unroll, cap_scale=cap_scale)
         m = self.m
+        m.field_tags = tags if tags is not None else field_tags(prog)[0]
         fn = prog.method(ty, "parse_from_block4", prefer_inherent=False)
         if fn is None:
             raise Unsupported("%s has no parse_from_block4" % ty)
